@@ -342,6 +342,9 @@ def analyse_copy(judge, f):
                         if isinstance(st, ast.Expr) and isinstance(st.value, ast.Call) and isinstance(st.value.func, ast.Attribute) \
                                 and st.value.func.attr == "update" and ast.unparse(st.value.func.value) == kname and st.value.args:
                             stores.append((st.lineno, f"constructor arguments from `{ast.unparse(st.value.args[0])[:40]}`", st.value.args[0]))
+                else:
+                    # **<expression>: every value of that mapping becomes a constructor argument as it is
+                    stores.append((c.lineno, f"constructor arguments **`{ast.unparse(k.value)[:40]}` (each value passed as it is)", k.value))
             else:
                 stores.append((c.lineno, f"constructor argument {k.arg}=`{ast.unparse(k.value)[:50]}`", k.value))
     for st in ast.walk(f.node):
@@ -423,6 +426,54 @@ def check(run):
                 run.instance("R2", f.where, f"`{token}` reaches the copy", ok)
                 if not ok:
                     run.violation("R2", f.where, f"`{f.qualname}` does not carry `{token}` over to the new object", key=key_of("C17-R2", spec, token))
+    # ---- R4 copy by replay
+    run.rule("R4", "a copy is made by copying state, not by replaying mutators: once a field of the new object has been filled from the original, no method of the new "
+                   "object that writes that field is called (the replay would re-derive what the original's history had changed)")
+    n4 = 0
+    for f in sorted(entry, key=lambda x: (x.module.name, x.qualname)):
+        if f.cls is None:
+            continue
+        spec = f"{f.module.name}:{f.qualname}"
+        _, _, new_vars = analyse_copy(judge, f)
+        new_vars = {v for v in new_vars if v != "<deepcopy>"}
+        if not new_vars:
+            continue
+        filled = {}  # (var, field) -> line
+        calls = []
+        for st in ast.walk(f.node):
+            tgt = None
+            if isinstance(st, ast.Assign):
+                tgt = st.targets[0]
+            elif isinstance(st, ast.Expr) and isinstance(st.value, ast.Call) and isinstance(st.value.func, ast.Attribute) \
+                    and st.value.func.attr in ("update", "extend", "append", "__setitem__"):
+                tgt = st.value.func.value
+            if tgt is not None:
+                chain = []
+                root = tgt
+                while isinstance(root, (ast.Attribute, ast.Subscript)):
+                    if isinstance(root, ast.Attribute):
+                        chain.append(root.attr)
+                    root = root.value
+                if isinstance(root, ast.Name) and root.id in new_vars and chain:
+                    src = ast.unparse(st.value if isinstance(st, ast.Assign) else st.value.args[0] if st.value.args else st)
+                    if f.params[0] + "." in src or "data" in src:
+                        filled.setdefault((root.id, chain[-1]), st.lineno)
+            if isinstance(st, ast.Call) and isinstance(st.func, ast.Attribute) and isinstance(st.func.value, ast.Name) and st.func.value.id in new_vars:
+                m = ix.member(f.cls, st.func.attr).get("method")
+                if m is not None:
+                    calls.append((st, m))
+        for st, m in calls:
+            n4 += 1
+            sm = ef.summary(m, f.cls)
+            written = {p[0] for (r, p, k) in sm.writes if r == m.params[0] and p and k != "memo"}
+            clash = sorted(fld for (var, fld), line in filled.items() if var == st.func.value.id and fld in written and line <= st.lineno)
+            ok = not clash
+            run.instance("R4", f"{f.module.rel}:{st.lineno} {f.qualname}", f"`{ast.unparse(st)[:50]}` writes {sorted(written)[:5]}; fields already copied: {sorted(fld for (_, fld) in filled)}", ok)
+            if not ok:
+                run.violation("R4", f"{f.module.rel}:{st.lineno} {f.qualname}",
+                              f"`{f.qualname}` fills `{clash[0]}` of the new object from the original and then calls `{ast.unparse(st)[:50]}`, which writes `{clash[0]}` itself: "
+                              f"the replayed mutator re-derives state (e.g. geometry removed from a node comes back from the edge attributes), so the copy is not the original's state",
+                              key=key_of("C17-R4", spec, m.name, clash[0]))
     # ---- R2 primitives: to_dict + defaults loop covers every default parameter
     _primitive_params(run, ix)
     # ---- R3 memo hand-over
